@@ -72,6 +72,8 @@ def run(F, chk):
     check_regex_cache(F, F2)
     F5 = chk.rule('F5', 'a short JSON form (key that carries no mask) is written by Serialize only under `mask == the constant from_json reloads it with`')
     check_short_forms(ser[0], fj, F5)
+    F6 = chk.rule('F6', 'text front-ends: a [u8; N] scratch buffer is re-initialised on every path between two consumptions (no bytes of the previous id leak)')
+    check_scratch_buffers(F, F6)
 
 
 def check_matches_shape(m, F3):
@@ -347,3 +349,72 @@ def check_short_forms(ser, fj, F5):
         else:
             F5.ok(sample={'json_key': key, 'from_json_mask': 'derived from the value: ' + mv[:60], 'serialize_guard': [show(c) for (c, _) in conds][:2]})
     F5.floor('Serialize sites writing a message-type key', n, 2)
+
+
+# ---------------------------------------------------------------------------------------------
+# F6: scratch buffers of the text front-ends are re-initialised between two ids
+
+def check_scratch_buffers(F, F6):
+    """The dlt-convert list front-end assembles each 4-character id in a local `[u8; 4]` scratch buffer that is partially
+    overwritten (up to the '-' padding) and then handed to Char4OrRegex::from_buf.  Typestate of the buffer:
+    initialised -> (partially) filled -> consumed; a second consumption needs a new whole-buffer initialisation on every
+    path, otherwise the bytes of the previous id leak into a shorter next id (the filter then differs from the same
+    filter given as JSON / DLF / ECU:APID:CTID)."""
+    from paths import Explorer
+    n = 0
+    for b in F.order:
+        if b.crate != 'lib' or not b.path.startswith('adlt::filter::') or '::tests::' in b.path:
+            continue
+        arrays = [l for l in range(1, len(b.locals)) if re.match(r'\[u8; \d+\]$', b.lty(l) or '') and l > b.arg_count]
+        if not arrays:
+            continue
+        cfg = CFG(b)
+        for L in arrays:
+            inits = set(bi for (bi, si, d) in cfg.defs.get(L, []) if si != 'call' and d.rv['k'] in ('agg', 'repeat', 'use'))
+            reads = {}
+            for blk in b.calls():
+                for a in blk.term.args:
+                    if a.place is None or not a.place.is_local:
+                        continue
+                    sd = cfg.single_def(a.place.l)
+                    for _ in range(6):      # &buf -> reborrow &*r -> unsize cast -> move
+                        if sd is not None and sd[1] != 'call' and sd[2].rv['k'] in ('use', 'cast'):
+                            o2 = Operand(sd[2].rv['o'])
+                            sd = cfg.single_def(o2.place.l) if o2.place is not None and o2.place.is_local else None
+                        elif sd is not None and sd[1] != 'call' and sd[2].rv['k'] == 'ref' and sd[2].rv['p'].get('p') and \
+                                all(e['k'] == 'deref' for e in sd[2].rv['p']['p']) and not sd[2].rv.get('mut'):
+                            sd = cfg.single_def(sd[2].rv['p']['l'])
+                        else:
+                            break
+                    if sd is not None and sd[1] != 'call' and sd[2].rv['k'] == 'ref':
+                        pl = sd[2].rv['p']
+                        if pl['l'] == L and not pl.get('p') and not sd[2].rv.get('mut') and not re.search(r'(::iter|::iter_mut|::len|::as_ptr|Debug|fmt::)', blk.term.callee.path):
+                            reads[blk.i] = blk.term.callee.path
+            if not reads or not inits:
+                continue
+
+            def block_effect(blk, facts, inits=inits, reads=reads):
+                if blk.i in inits:
+                    facts = frozenset(facts | {('fresh',)})
+                return facts
+            # the read consumes the freshness *after* the block: model by an edge effect out of the read block
+            def edge_effect(blk, tgt, facts, reads=reads):
+                if blk.i in reads:
+                    return frozenset(f for f in facts if f != ('fresh',))
+                return facts
+            ex = Explorer(cfg, block_effect=block_effect, edge_effect=edge_effect, var_roots=set())
+            ex.run()
+            F6.paths += ex.n_states
+            for bi, callee in sorted(reads.items()):
+                n += 1
+                F6.sites += 1
+                F6.fn(b.path)
+                sts = ex.states.get(bi, ())
+                stale = [st for st in sts if ('fresh',) not in st[1] and bi not in inits]
+                if stale:
+                    F6.violation(('scratch-buffer-reused', b.path, callee.split('::')[-1]),
+                                 '%s hands the scratch buffer `%s` to %s at %s although, on some path, it has not been re-initialised since it was last consumed: bytes of the previous id leak into a shorter id' %
+                                 (b.path, b.name_of(L) or '_%d' % L, callee, b.loc(b.blocks[bi].term.sp)), where=b.loc(b.blocks[bi].term.sp), witness={'block_path': ex.witness(bi, stale[0])[-40:]})
+                else:
+                    F6.ok(sample={'function': b.path, 'buffer': b.name_of(L) or '_%d' % L, 'consumed_by': callee.split('::')[-1], 'at': b.loc(b.blocks[bi].term.sp), 'initialised_since_last_consumption': True})
+    F6.floor('consumptions of [u8; N] scratch buffers in the filter front-ends', n, 2)
